@@ -31,22 +31,73 @@ import (
 //	pw:     rtp.Packet.Write against the Lean model / frame encoding.
 func main() { Main("C13", runC13) }
 
-var (
-	armed    int32
-	parkedCh = make(chan uint32, 16)
-	release  = make(chan struct{}, 16)
-)
+// runCtl holds the schedule points of ONE tear run.  The hook handlers read the current run
+// through an atomic pointer, and a goroutine parked at a point waits on ITS run's channel, which is
+// closed when the run ends: a goroutine left behind by an aborted run can never take a release
+// that was meant for a later one.
+type runCtl struct {
+	armed    int32         // park the media goroutine between frame prefix and frame body
+	sockArm  int32         // park the next socket write of the session (one shot)
+	parked   chan uint32   // the media goroutine has reached the mid-frame point
+	release  chan struct{} // let it write the body
+	sockPark chan int      // a socket write (that many bytes) is parked
+	sockRel  chan struct{} // let it go on
+	done     chan struct{} // closed at the end of the run
+	mu       sync.Mutex
+	pops     map[uint32]int // consume.beforePop events per consumer id: that media goroutine is back at its queue
+}
+
+func (r *runCtl) popsOf(cid uint32) int {
+	r.mu.Lock()
+	defer r.mu.Unlock()
+	return r.pops[cid]
+}
+
+var curRun atomic.Value // *runCtl
+
+func newRunCtl() *runCtl {
+	return &runCtl{parked: make(chan uint32, 64), release: make(chan struct{}, 64), sockPark: make(chan int, 64),
+		sockRel: make(chan struct{}, 64), done: make(chan struct{}), pops: map[uint32]int{}}
+}
 
 func hook(point string, id uint32) {
-	if point == "rtp.packet.write.mid" && atomic.LoadInt32(&armed) == 1 {
-		parkedCh <- id
-		<-release
+	r, _ := curRun.Load().(*runCtl)
+	if r == nil {
+		return
+	}
+	switch point {
+	case "consume.beforePop":
+		r.mu.Lock()
+		r.pops[id]++
+		r.mu.Unlock()
+	case "rtp.packet.write.mid":
+		if atomic.LoadInt32(&r.armed) == 1 {
+			r.parked <- id
+			select {
+			case <-r.release:
+			case <-r.done:
+			}
+		}
+	}
+}
+
+// sockHook is the server-side socket-write schedule point of a run's connection
+func (r *runCtl) sockHook(p []byte) {
+	if atomic.CompareAndSwapInt32(&r.sockArm, 1, 0) {
+		r.sockPark <- len(p)
+		select {
+		case <-r.sockRel:
+		case <-r.done:
+		}
 	}
 }
 
 const base = "rtsp://h.example"
 
-var grace = 12 * time.Millisecond
+// grace: how long a goroutine that the unchanged code keeps BLOCKED on lockW is given to show
+// that it is not blocked (only a changed tree ever uses it up to an effect; on the unchanged tree
+// it is simply waited out, and no verdict depends on it).
+var grace = 25 * time.Millisecond
 var parkBudget = sl.Watchdog
 
 type pktStep struct {
@@ -54,6 +105,13 @@ type pktStep struct {
 	size    int
 	inject  []string // requests sent while the media goroutine is parked mid-frame
 	between []string // requests sent (and answered) after the frame is complete
+	// reverse pre-emption: the response of this request is parked inside its socket write
+	// (buffered.Conn Flush / direct write, i.e. between resp.Write and the end of Flush) while the
+	// packet is handed to the media goroutine
+	rev string
+	// (reverse) keep the media goroutine at the mid-frame point, should it get there, until the
+	// parked response has been released and answered
+	hold bool
 }
 
 type tearCase struct {
@@ -72,7 +130,11 @@ func (t tearCase) line() string {
 		return strings.Join(x, "+")
 	}
 	for _, p := range t.pkts {
-		fmt.Fprintf(&b, " P %d %d %s %s", p.k, p.size, j(p.inject), j(p.between))
+		if p.rev != "" {
+			fmt.Fprintf(&b, " V %d %d %s %s %s", p.k, p.size, p.rev, B01(p.hold), j(p.between))
+		} else {
+			fmt.Fprintf(&b, " P %d %d %s %s", p.k, p.size, j(p.inject), j(p.between))
+		}
 	}
 	return b.String()
 }
@@ -90,10 +152,21 @@ func parseTear(f []string) (t tearCase, ok bool) {
 		}
 		return strings.Split(s, "+")
 	}
-	for i := 5; i+4 < len(f)+0 && f[i] == "P"; i += 5 {
-		k, _ := strconv.Atoi(f[i+1])
-		n, _ := strconv.Atoi(f[i+2])
-		t.pkts = append(t.pkts, pktStep{k, n, sp(f[i+3]), sp(f[i+4])})
+	for i := 5; i < len(f); {
+		switch {
+		case f[i] == "P" && i+4 < len(f):
+			k, _ := strconv.Atoi(f[i+1])
+			n, _ := strconv.Atoi(f[i+2])
+			t.pkts = append(t.pkts, pktStep{k: k, size: n, inject: sp(f[i+3]), between: sp(f[i+4])})
+			i += 5
+		case f[i] == "V" && i+5 < len(f):
+			k, _ := strconv.Atoi(f[i+1])
+			n, _ := strconv.Atoi(f[i+2])
+			t.pkts = append(t.pkts, pktStep{k: k, size: n, rev: f[i+3], hold: f[i+4] == "1", between: sp(f[i+5])})
+			i += 6
+		default:
+			return t, len(t.pkts) > 0
+		}
 	}
 	return t, true
 }
@@ -111,13 +184,16 @@ func payload(k, i, size int) []byte {
 }
 
 type tearResult struct {
-	raw    []byte
-	frames [][2]interface{} // (channel, payload)
-	cseqs  []int
-	labels []string // expected chunk labels in order
-	sched  string
-	l0, l1 []string
-	err    string
+	raw     []byte
+	frames  [][2]interface{} // (channel, payload)
+	cseqs   []int
+	labels  []string // expected chunk labels in order
+	sched   string
+	l0, l1  []string
+	err     string
+	torn    string // the client saw a unit that cannot be: the run was cut there
+	timeout bool   // a watchdog expired during the run
+	where   string // what was going on when the run was cut: mid-frame | socket-write | -
 }
 
 func transportFor(ch int, ctl bool) string {
@@ -130,29 +206,60 @@ func transportFor(ch int, ctl bool) string {
 func runTear(fx *sl.Fixture, t tearCase) (res tearResult) {
 	var cl *sl.Conn
 	start := -1
+	exp0 := sl.Expiries
+	ctl := newRunCtl()
+	curRun.Store(ctl)
 	defer func() {
 		if r := recover(); r != nil {
 			res.err = fmt.Sprint("harness panic: ", r)
 		}
+		atomic.StoreInt32(&ctl.armed, 0)
+		atomic.StoreInt32(&ctl.sockArm, 0)
+		close(ctl.done) // frees every goroutine still parked at a point of this run
 		if res.err != "" && cl != nil && start >= 0 {
-			// an unanswered request: keep what did arrive, the partial-stream verdict judges it
+			// the run was cut: keep what did arrive, the partial-stream verdict judges it
 			time.Sleep(grace)
 			if raw := cl.RawLog(); len(raw) >= start {
 				res.raw = raw[start:]
 			}
 		}
+		if sl.Expiries != exp0 {
+			res.timeout = true
+		}
+		if cl != nil {
+			cl.Close()
+		}
 	}()
 	fx.Ensure()
 	sl.WaitUntil(func() bool { return fx.Stream.ConsumerCount() == 0 })
 	c := sl.DialTCP(0)
-	defer c.Close()
 	cl = c
+	c.SetServerWrite(ctl.sockHook)
 	cseq := 0
+	fi := 0 // frames [0,fi) of res.frames have been seen on the wire (or skipped)
+	track := func(it sl.Item) {
+		switch it.Kind {
+		case sl.KFrame:
+			for j := fi; j < len(res.frames); j++ {
+				if res.frames[j][0].(int) == it.Chan && bytes.Equal(res.frames[j][1].([]byte), it.Payload) {
+					fi = j + 1
+					return
+				}
+			}
+			res.torn = fmt.Sprintf("a complete frame on the wire (channel %d, %d bytes) is not a packet that was delivered", it.Chan, len(it.Payload))
+		case sl.KAnomaly:
+			res.torn = "bytes that are neither a response nor a frame: " + it.What
+		}
+	}
 	// wait for the response with this CSeq; frames and other responses pass by
 	await := func(cs int) bool {
 		for {
 			it, ok := c.Next()
 			if !ok || it.Kind == sl.KEOF {
+				return false
+			}
+			track(it)
+			if res.torn != "" {
 				return false
 			}
 			if it.Kind == sl.KResp && it.Header["CSeq"] == strconv.Itoa(cs) {
@@ -165,22 +272,40 @@ func runTear(fx *sl.Fixture, t tearCase) (res tearResult) {
 		c.Send(sl.Req{Method: m, URL: url, CSeq: strconv.Itoa(cseq), Transport: tr}.Wire())
 		return cseq
 	}
+	// reqSync returns when the server has read the request from its socket
+	reqSync := func(m, url, tr string) int {
+		cseq++
+		c.SendSync(sl.Req{Method: m, URL: url, CSeq: strconv.Itoa(cseq), Transport: tr}.Wire())
+		return cseq
+	}
+	fail := func(what string) {
+		if res.torn != "" {
+			what = res.torn
+		}
+		res.err = what
+	}
 	if !await(req("DESCRIBE", base+fx.Path, "")) || !await(req("SETUP", base+fx.Path+"/streamid=0", transportFor(t.vch, t.vctl))) {
-		res.err = "setup failed"
+		fail("setup failed")
 		return
 	}
 	if t.ach >= 0 && !await(req("SETUP", base+fx.Path+"/streamid=1", transportFor(t.ach, true))) {
-		res.err = "setup audio failed"
+		fail("setup audio failed")
 		return
 	}
 	if !await(req("PLAY", base+fx.Path, "")) || !await(req("OPTIONS", "*", "")) {
-		res.err = "play failed"
+		fail("play failed")
 		return
 	}
-	if fx.Stream.ConsumerCount() != 1 {
-		res.err = "not consuming"
+	if !sl.WaitUntil(func() bool { return fx.Stream.ConsumerCount() == 1 }) {
+		fail("not consuming")
 		return
 	}
+	rt0, _, _, _ := fx.Stream.VerifTables()
+	if len(rt0) != 1 {
+		fail("not consuming")
+		return
+	}
+	myCid := uint32(rt0[0].CID)
 	start = len(c.RawLog())
 	chans := [4]int{t.vch, -1, t.ach, -1}
 	if t.vctl {
@@ -190,72 +315,176 @@ func runTear(fx *sl.Fixture, t tearCase) (res tearResult) {
 		chans[3] = t.ach + 1
 	}
 	var sched strings.Builder
-	atomic.StoreInt32(&armed, 1)
-	defer atomic.StoreInt32(&armed, 0)
+	atomic.StoreInt32(&ctl.armed, 1)
+	// the media goroutine is back at its queue after `n` packets when it has announced n+1 pops
+	consumed := 0
+	idle := func() bool {
+		n := consumed
+		return sl.WaitUntil(func() bool { return ctl.popsOf(myCid) > n })
+	}
+	deliver := func(k int, data []byte) bool {
+		done, _ := sl.Guard(sl.Watchdog, func() { fx.Stream.WriteRtpPacket(&rtp.Packet{Channel: byte(k), Data: data}) })
+		consumed++
+		return done
+	}
+	waitParked := func() bool {
+		select {
+		case <-ctl.parked:
+			return true
+		case <-time.After(parkBudget):
+			sl.Expiries++
+			parkBudget = 3 * time.Second // reported below; later cases need not wait the full watchdog again
+			return false
+		}
+	}
+	answered := func(m string, cs int) bool {
+		lr := fmt.Sprintf("R%d", cs)
+		res.l1 = append(res.l1, lr)
+		res.cseqs = append(res.cseqs, cs)
+		res.labels = append(res.labels, lr)
+		sched.WriteString("1111") // lock, write, flush, unlock
+		if !await(cs) {
+			fail(m + " request never answered")
+			return false
+		}
+		return true
+	}
 	for i, p := range t.pkts {
 		data := payload(p.k, i, p.size)
 		ch := chans[p.k]
-		fx.Stream.WriteRtpPacket(&rtp.Packet{Channel: byte(p.k), Data: data})
-		if ch < 0 || ch > 255 {
-			continue // unsubscribed: Packet.Write returns before the schedule point, nothing is sent
-		}
-		select {
-		case <-parkedCh:
-		case <-time.After(parkBudget):
-			parkBudget = 200 * time.Millisecond // reported below; later cases need not wait the full watchdog again
-			res.err = "media goroutine never reached the schedule point"
+		sub := ch >= 0 && ch <= 255
+		if !idle() {
+			fail("media goroutine did not come back to its queue")
 			return
 		}
 		lab := fmt.Sprintf("F%d", i)
-		res.l0 = append(res.l0, lab)
-		res.frames = append(res.frames, [2]interface{}{ch, data})
-		sched.WriteString("00") // lock, write prefix
-		var injected []int
-		for _, m := range p.inject {
-			injected = append(injected, req(m, base+fx.Path, ""))
-			sched.WriteString("1") // the request goroutine reaches lockW.Lock and blocks
-		}
-		if len(p.inject) > 0 {
-			// give the request goroutine time to reach lockW (or, without the lock, to write its
-			// response into the middle of the frame); the stream verdict below decides
-			time.Sleep(grace)
-		}
-		release <- struct{}{}
-		sched.WriteString("00") // write body, unlock
-		res.labels = append(res.labels, lab+".p", lab+".d")
-		for _, cs := range injected {
-			lr := fmt.Sprintf("R%d", cs)
-			res.l1 = append(res.l1, lr)
-			res.cseqs = append(res.cseqs, cs)
-			res.labels = append(res.labels, lr)
-			sched.WriteString("1111") // lock, write, flush, unlock
-			if !await(cs) {
-				res.err = "injected request never answered"
+		if p.rev != "" && sub {
+			// ---- reverse pre-emption: park the request goroutine inside the socket write of its response
+			res.where = "socket-write"
+			atomic.StoreInt32(&ctl.sockArm, 1)
+			cs := req(p.rev, base+fx.Path, "")
+			select {
+			case <-ctl.sockPark:
+			case <-time.After(parkBudget):
+				sl.Expiries++
+				parkBudget = 3 * time.Second
+				fail("the response never reached the socket")
 				return
 			}
-		}
-		for _, m := range p.between {
-			cs := req(m, base+fx.Path, "")
 			lr := fmt.Sprintf("R%d", cs)
 			res.l1 = append(res.l1, lr)
 			res.cseqs = append(res.cseqs, cs)
-			res.labels = append(res.labels, lr)
-			sched.WriteString("1111")
+			res.l0 = append(res.l0, lab)
+			res.frames = append(res.frames, [2]interface{}{ch, data})
+			res.labels = append(res.labels, lr, lab+".p", lab+".d")
+			// lock, write, flush (parked inside); the media goroutine tries the lock: blocked; unlock; the frame
+			sched.WriteString("111" + "0" + "1" + "0000")
+			if !deliver(p.k, data) {
+				fail("WriteRtpPacket blocked")
+				return
+			}
+			// unchanged code: the media goroutine now blocks on lockW.  Give a changed tree time to get past it.
+			mid := false
+			select {
+			case <-ctl.parked:
+				mid = true
+			case <-time.After(grace):
+			}
+			if mid && !p.hold {
+				ctl.release <- struct{}{} // the whole frame is written while the response is in its socket write
+				idle()
+			}
+			ctl.sockRel <- struct{}{}
 			if !await(cs) {
-				res.err = "request never answered"
+				fail(p.rev + " request (parked in its socket write while a frame was delivered) never answered")
+				return
+			}
+			if !mid {
+				if !waitParked() {
+					fail("media goroutine never reached the schedule point")
+					return
+				}
+			}
+			if !mid || p.hold {
+				ctl.release <- struct{}{}
+			}
+			res.where = "-"
+		} else {
+			if sub {
+				res.frames = append(res.frames, [2]interface{}{ch, data})
+			}
+			if !deliver(p.k, data) {
+				fail("WriteRtpPacket blocked")
+				return
+			}
+			if sub {
+				// ---- forward pre-emption: the media goroutine is parked between prefix and body
+				if !waitParked() {
+					fail("media goroutine never reached the schedule point")
+					return
+				}
+				res.where = "mid-frame"
+				res.l0 = append(res.l0, lab)
+				sched.WriteString("00") // lock, write prefix
+				var injected []int
+				for j, m := range p.inject {
+					if j == 0 {
+						// the server has read the request: its goroutine goes on to lockW.Lock and blocks there
+						injected = append(injected, reqSync(m, base+fx.Path, ""))
+					} else {
+						injected = append(injected, req(m, base+fx.Path, "")) // read only after the first is answered
+					}
+					sched.WriteString("1")
+				}
+				if len(injected) > 0 {
+					// unchanged code: blocked until the frame is complete.  A changed tree that answers now puts
+					// its response into the middle of the frame: stop waiting as soon as that is on the wire.
+					marks := make([][]byte, len(injected))
+					for j, cs := range injected {
+						marks[j] = []byte(fmt.Sprintf("CSeq: %d\r\n", cs))
+					}
+					deadline := time.Now().Add(grace)
+					for time.Now().Before(deadline) {
+						raw := c.RawLog()[start:]
+						hit := false
+						for _, mk := range marks {
+							hit = hit || bytes.Contains(raw, mk)
+						}
+						if hit {
+							break
+						}
+						time.Sleep(200 * time.Microsecond)
+					}
+				}
+				ctl.release <- struct{}{}
+				sched.WriteString("00") // write body, unlock
+				res.labels = append(res.labels, lab+".p", lab+".d")
+				for j, cs := range injected {
+					if !answered(p.inject[j], cs) {
+						return
+					}
+				}
+				res.where = "-"
+			}
+			// an unsubscribed channel: Packet.Write returns before the schedule point, nothing is sent
+		}
+		for _, m := range p.between {
+			if !idle() {
+				fail("media goroutine did not come back to its queue")
+				return
+			}
+			if !answered(m, req(m, base+fx.Path, "")) {
 				return
 			}
 		}
 	}
-	atomic.StoreInt32(&armed, 0)
+	if !idle() {
+		fail("media goroutine did not come back to its queue")
+		return
+	}
+	atomic.StoreInt32(&ctl.armed, 0)
 	// final barrier: its response flushes whatever the rate limiter kept in the buffer
-	cs := req("OPTIONS", "*", "")
-	res.l1 = append(res.l1, fmt.Sprintf("R%d", cs))
-	res.cseqs = append(res.cseqs, cs)
-	res.labels = append(res.labels, fmt.Sprintf("R%d", cs))
-	sched.WriteString("1111")
-	if !await(cs) {
-		res.err = "barrier never answered"
+	if !answered("OPTIONS", req("OPTIONS", "*", "")) {
 		return
 	}
 	res.raw = c.RawLog()[start:]
@@ -307,6 +536,13 @@ func parseWs(f []string) (w wsCase, ok bool) {
 	return w, true
 }
 
+// payload of the packets sent until the WSP data channel is attached; a straggler may arrive at any
+// later moment and is left out of every count and comparison
+const wsProbe = "probe-packet"
+
+// set when a tree turns out not to answer requests while a WebSocket frame is being composed
+var wsRespWaitsForFrame bool
+
 type wsResult struct {
 	msgs     [][]byte // media side: ws-rtsp all messages; wsp data channel messages
 	expect   [][2]interface{}
@@ -314,6 +550,7 @@ type wsResult struct {
 	err      string
 	anomaly  []string
 	ctlItems []sl.Item
+	short    bool // fewer frame messages than delivered packets arrived within the budget
 }
 
 func runWs(fx *sl.Fixture, w wsCase) (res wsResult) {
@@ -346,7 +583,9 @@ func runWs(fx *sl.Fixture, w wsCase) (res wsResult) {
 			}
 			switch it.Kind {
 			case sl.KFrame:
-				frames++
+				if string(it.Payload) != wsProbe {
+					frames++
+				}
 			case sl.KAnomaly:
 				res.anomaly = append(res.anomaly, it.What)
 				if it.What == "empty message" {
@@ -386,7 +625,7 @@ func runWs(fx *sl.Fixture, w wsCase) (res wsResult) {
 	if w.flav == "wsp" {
 		// the server answers JOIN before it attaches the data channel to the session: send probe
 		// packets until one comes through, so that the case proper starts with the channel attached
-		probe := []byte("probe-packet")
+		probe := []byte(wsProbe)
 		got := false
 		deadline := time.Now().Add(parkBudget)
 		for !got && time.Now().Before(deadline) {
@@ -402,7 +641,8 @@ func runWs(fx *sl.Fixture, w wsCase) (res wsResult) {
 			}
 		}
 		if !got {
-			parkBudget = 200 * time.Millisecond
+			parkBudget = 3 * time.Second
+			res.short = true
 		}
 		// let stragglers of the probing arrive
 		sl.WaitUntil(func() bool {
@@ -434,24 +674,79 @@ func runWs(fx *sl.Fixture, w wsCase) (res wsResult) {
 	if w.ach >= 0 {
 		chans[3] = w.ach + 1
 	}
-	var pending []int
+	// The media goroutine is parked between frame prefix and frame body — on the WebSocket
+	// transports that is inside the composition of the message in its pooled buffer, outside lockW —
+	// while the request goroutine answers the request of this position.  The unchanged code answers
+	// at once (the response is awaited while the media goroutine is still parked).
+	ctl := newRunCtl()
+	curRun.Store(ctl)
+	defer close(ctl.done)
+	atomic.StoreInt32(&ctl.armed, 1)
+	defer atomic.StoreInt32(&ctl.armed, 0)
 	for i, p := range w.pkts {
 		data := payload(p[0], i, p[1])
-		fx.Stream.WriteRtpPacket(&rtp.Packet{Channel: byte(p[0]), Data: data})
-		if ch := chans[p[0]]; ch >= 0 && ch <= 255 {
+		ch := chans[p[0]]
+		sub := ch >= 0 && ch <= 255
+		if sub {
 			res.expect = append(res.expect, [2]interface{}{ch, data})
 		}
-		if m, ok := w.reqAt[i]; ok {
-			pending = append(pending, req(m, base+fx.Path, ""))
-			res.nresp++
-		}
-	}
-	for _, cs := range pending {
-		if !await(cs) {
-			res.err = "request never answered"
+		if done, _ := sl.Guard(sl.Watchdog, func() { fx.Stream.WriteRtpPacket(&rtp.Packet{Channel: byte(p[0]), Data: data}) }); !done {
+			res.err = "WriteRtpPacket blocked"
 			return
 		}
+		parked := false
+		if sub {
+			select {
+			case <-ctl.parked:
+				parked = true
+			case <-time.After(parkBudget):
+				sl.Expiries++
+				parkBudget = 3 * time.Second
+				res.err = "media goroutine never reached the schedule point"
+				return
+			}
+		}
+		if m, ok := w.reqAt[i]; ok {
+			cs := req(m, base+fx.Path, "")
+			res.nresp++
+			if parked && !wsRespWaitsForFrame {
+				// answered while the frame is half composed
+				got := make(chan bool, 1)
+				go func() { got <- await(cs) }()
+				select {
+				case ok := <-got:
+					if !ok {
+						res.err = "request never answered"
+						return
+					}
+				case <-time.After(2 * time.Second):
+					// this tree does not answer while a frame is being composed (the composition is under the
+					// lock): nothing wrong with that; release the frame, then wait; do not wait like this again
+					wsRespWaitsForFrame = true
+					ctl.release <- struct{}{}
+					parked = false
+					if !<-got {
+						res.err = "request never answered"
+						return
+					}
+				}
+			} else {
+				if parked {
+					time.Sleep(grace)
+					ctl.release <- struct{}{}
+					parked = false
+				}
+				if !await(cs) {
+					res.err = "request never answered"
+					return
+				}
+			}
+		}
+		if parked {
+			ctl.release <- struct{}{}
+		}
 	}
+	atomic.StoreInt32(&ctl.armed, 0)
 	// drain: all packets consumed, then one more round trip
 	sl.WaitUntil(func() bool {
 		rt, _, _, _ := fx.Stream.VerifTables()
@@ -471,7 +766,8 @@ func runWs(fx *sl.Fixture, w wsCase) (res wsResult) {
 	deadline := time.Now().Add(parkBudget)
 	for frames < len(res.expect) {
 		if !time.Now().Before(deadline) {
-			parkBudget = 200 * time.Millisecond // the missing frames are reported below; do not wait as long again
+			parkBudget = 3 * time.Second // the missing frames are reported below; do not wait as long again
+			res.short = true
 			break
 		}
 		it, ok := c.TryNext(50 * time.Millisecond)
@@ -515,7 +811,7 @@ func runC13(c *Ctx) {
 	sl.Silence()
 	config.VerifSetAuth(false)
 	verifhook.Set(hook)
-	c.Res.Rule = "tear: case = (interleaved channel set-up, packets with sizes, requests injected while the media goroutine is parked between frame prefix and body, requests between frames); " +
+	c.Res.Rule = "tear: case = (interleaved channel set-up, packets with sizes, requests injected while the media goroutine is parked between frame prefix and body, or a response parked inside its socket write while a packet is delivered, requests between frames); " +
 		"wsmsg: case = (ws-rtsp|wsp, set-up, packets, keep-alive requests); bconn: case = (buffer size, flush rate, write sizes / flushes); pw: (channel table, packet). " +
 		"Distinct by case text; non-trivial when at least one frame is written (tear: with an injected request; bconn: with a write that does not fit the free buffer space or a limited write)"
 	fx := &sl.Fixture{Path: "/live/a", Doc: sl.NewSdpDoc(sl.VideoAudioSdp("streamid=0", "streamid=1"))}
@@ -553,7 +849,11 @@ func runC13(c *Ctx) {
 				if r.Chance(15) {
 					p.size = r.Intn(3000)
 				}
-				if r.Chance(60) {
+				if r.Chance(30) {
+					// the other direction: the response is in its socket write when the packet is delivered
+					p.rev = reqs[r.Intn(3+r.Intn(4))%len(reqs)]
+					p.hold = r.Chance(60)
+				} else if r.Chance(75) {
 					for m := 1 + r.Intn(2); m > 0; m-- {
 						p.inject = append(p.inject, reqs[r.Intn(3+r.Intn(4))%len(reqs)])
 					}
@@ -590,6 +890,15 @@ func runC13(c *Ctx) {
 	var tres []tearResult
 	for _, t := range tears {
 		res := runTear(fx, t)
+		if res.err != "" && res.torn == "" {
+			// the run did not complete and nothing wrong was seen on the wire (a watchdog expired, the
+			// session went away, …): a busy machine must not become a finding.  Run the case once more,
+			// alone, with the full budgets, and report what that run shows.
+			c.Count("tear-rerun")
+			sl.FullBudgets()
+			parkBudget = sl.Watchdog
+			res = runTear(fx, t)
+		}
 		tres = append(tres, res)
 		var b strings.Builder
 		fmt.Fprintf(&b, "c13 stream %s F %d", Hx(res.raw), len(res.frames))
@@ -610,33 +919,59 @@ func runC13(c *Ctx) {
 	outs := c.Drive(lines)
 	for i, t := range tears {
 		res := tres[i]
-		inj := 0
+		inj, rev := 0, 0
 		for _, p := range t.pkts {
 			inj += len(p.inject)
+			if p.rev != "" {
+				rev++
+			}
 		}
-		c.Eval(t.line(), inj > 0 && len(res.frames) > 0)
+		c.Eval(t.line(), inj+rev > 0 && len(res.frames) > 0)
 		c.Count("tear-cases")
 		c.CountN("tear-frames", len(res.frames))
 		c.CountN("tear-injected-requests", inj)
+		c.CountN("tear-responses-parked-in-socket-write", rev)
 		c.CountN("tear-stream-bytes", len(res.raw))
+		kv := KV(outs[2*i])
+		// what the two goroutines were doing when it went wrong
+		ctxOf := func() string {
+			switch {
+			case res.where == "mid-frame":
+				return ":request-while-mid-frame"
+			case res.where == "socket-write":
+				return ":frame-while-response-in-socket-write"
+			case inj > 0 && rev > 0:
+				return ":requests-during-delivery"
+			case inj > 0:
+				return ":request-while-mid-frame"
+			case rev > 0:
+				return ":frame-while-response-in-socket-write"
+			}
+			return ""
+		}
 		if res.err != "" {
-			if KV(outs[2*i])["partial"] == "torn-frame" {
-				// the run did not complete AND a complete frame on the wire is not a delivered packet
-				c.Find(Finding{Kind: "oracle", Class: "torn-frame:request-while-mid-frame", Case: t.line(),
-					Impl: fmt.Sprintf("%s; %d bytes received, %d frames delivered", res.err, len(res.raw), len(res.frames)), Spec: "torn-frame",
+			if pv := kv["partial"]; pv == "torn-frame" || pv == "torn-stream" {
+				// the run was cut AND what is on the wire is not a sequence of complete responses and
+				// delivered frames (followed by the beginning of one)
+				c.Find(Finding{Kind: "oracle", Class: pv + ctxOf(), Case: t.line(),
+					Impl: fmt.Sprintf("%s; %d bytes received, %d frames delivered", res.err, len(res.raw), len(res.frames)), Spec: pv,
 					Detail: "stream=" + trunc(Hx(res.raw), 600)})
 				continue
 			}
-			c.Find(Finding{Kind: "corr", Class: "tear-harness", Case: t.line(), Impl: res.err})
+			// twice (the second time alone, with the full watchdog): the session hangs or dies, but
+			// nothing torn is on the wire
+			c.Find(Finding{Kind: "corr", Class: "tear-run-incomplete", Case: t.line(), Impl: res.err, Model: "every request is answered, every frame written"})
 			continue
 		}
-		verdict := KV(outs[2*i])["verdict"]
+		verdict := kv["verdict"]
 		if verdict != "ok" {
-			cl := verdict
-			if inj > 0 {
-				cl += ":request-while-mid-frame"
-			}
-			c.Find(Finding{Kind: "oracle", Class: cl, Case: t.line(), Impl: fmt.Sprintf("%d bytes, %d frames, %d responses expected", len(res.raw), len(res.frames), len(res.cseqs)), Spec: verdict,
+			c.Find(Finding{Kind: "oracle", Class: verdict + ctxOf(), Case: t.line(), Impl: fmt.Sprintf("%d bytes, %d frames, %d responses expected", len(res.raw), len(res.frames), len(res.cseqs)), Spec: verdict,
+				Detail: "stream=" + trunc(Hx(res.raw), 600)})
+		} else if ex := kv["exact"]; ex != "ok" {
+			// every unit on the wire is complete and every frame is a delivered packet, but a frame or a
+			// response is missing / repeated: not tearing (the property holds on this stream); the model
+			// (everything written arrives once) no longer describes the code
+			c.Find(Finding{Kind: "corr", Class: "stream-" + ex, Case: t.line(), Impl: fmt.Sprintf("%d bytes", len(res.raw)), Model: fmt.Sprintf("%d frames, responses %v", len(res.frames), res.cseqs),
 				Detail: "stream=" + trunc(Hx(res.raw), 600)})
 		}
 		c.Count("tear-verdict-" + verdict)
@@ -655,8 +990,19 @@ func runC13(c *Ctx) {
 	type span struct{ from, to int }
 	var spans []span
 	var wres []wsResult
+	wsIncomplete := func(res wsResult) bool {
+		// a run that ended with an error, or in which fewer messages than delivered packets arrived
+		// within the budget, is repeated once alone with the full budgets before anything is said
+		return res.err != "" || res.short
+	}
 	for _, w := range wss {
 		res := runWs(fx, w)
+		if wsIncomplete(res) {
+			c.Count("wsmsg-rerun")
+			sl.FullBudgets()
+			parkBudget = sl.Watchdog
+			res = runWs(fx, w)
+		}
 		wres = append(wres, res)
 		s := span{len(lines), 0}
 		for _, m := range res.msgs {
@@ -672,7 +1018,7 @@ func runC13(c *Ctx) {
 		c.Count("wsmsg-" + w.flav)
 		c.CountN("wsmsg-messages", len(res.msgs))
 		if res.err != "" {
-			c.Find(Finding{Kind: "corr", Class: "ws-harness", Case: w.line(), Impl: res.err})
+			c.Find(Finding{Kind: "corr", Class: "ws-run-incomplete", Case: w.line(), Impl: res.err, Model: "every request is answered"})
 			continue
 		}
 		var gotFrames []string
@@ -688,6 +1034,9 @@ func runC13(c *Ctx) {
 				continue
 			}
 			if strings.HasPrefix(m["kind"], "frame:") {
+				if strings.HasSuffix(m["kind"], ":"+Hx([]byte(wsProbe))) {
+					continue // a straggler of the attach probing
+				}
 				gotFrames = append(gotFrames, strings.TrimPrefix(m["kind"], "frame:"))
 			} else {
 				nresp++
@@ -697,16 +1046,33 @@ func runC13(c *Ctx) {
 		for _, f := range res.expect {
 			want = append(want, fmt.Sprintf("%d:%s", f[0].(int), Hx(f[1].([]byte))))
 		}
+		// every frame message must carry a packet that was delivered, in order (gaps allowed)
+		foreign := ""
+		k := 0
+		for _, g := range gotFrames {
+			for k < len(want) && want[k] != g {
+				k++
+			}
+			if k == len(want) {
+				foreign = g
+				break
+			}
+			k++
+		}
 		if bad != "" {
 			c.Find(Finding{Kind: "oracle", Class: "ws-message-" + bad, Case: w.line(), Impl: fmt.Sprintf("%d messages, first bad one: %s", len(res.msgs), bad), Spec: "every message is one complete response or frame"})
-		} else if strings.Join(gotFrames, " ") != strings.Join(want, " ") {
-			c.Find(Finding{Kind: "oracle", Class: "ws-frames-differ", Case: w.line(), Impl: trunc(strings.Join(gotFrames, " "), 300), Spec: trunc(strings.Join(want, " "), 300)})
+		} else if foreign != "" {
+			c.Find(Finding{Kind: "oracle", Class: "ws-message-foreign-frame", Case: w.line(), Impl: trunc(foreign, 300), Spec: "every frame message is a delivered packet: " + trunc(strings.Join(want, " "), 300)})
+		} else if len(gotFrames) != len(want) {
+			// complete messages only, but a packet never arrived: not what C13 forbids; the model (one message per packet) is off
+			c.Find(Finding{Kind: "corr", Class: "ws-frames-lost", Case: w.line(), Impl: trunc(strings.Join(gotFrames, " "), 300), Model: trunc(strings.Join(want, " "), 300)})
 		} else if w.flav == "ws" && nresp != res.nresp {
-			c.Find(Finding{Kind: "oracle", Class: "ws-responses-differ", Case: w.line(), Impl: fmt.Sprint(nresp), Spec: fmt.Sprint(res.nresp)})
+			c.Find(Finding{Kind: "corr", Class: "ws-responses-differ", Case: w.line(), Impl: fmt.Sprint(nresp), Model: fmt.Sprint(res.nresp)})
 		}
 		for _, it := range res.ctlItems {
 			if w.flav == "wsp" && !it.WspOK {
-				c.Find(Finding{Kind: "oracle", Class: "wsp-reply-envelope", Case: w.line(), Impl: string(it.Raw)})
+				// the WSP envelope of a control-channel reply is not what C13 speaks about
+				c.Find(Finding{Kind: "corr", Class: "wsp-reply-envelope", Case: w.line(), Impl: string(it.Raw), Model: "WSP/1.1 200 OK, seq echoed, channel id"})
 			}
 		}
 		if i%(len(wss)/4+1) == 0 {
@@ -774,13 +1140,8 @@ func runBConn(c *Ctx) {
 		b.WriteString("c13 bconn 8192")
 		var all []byte
 		seq := byte(1)
-		func() {
-			defer func() {
-				if r := recover(); r != nil { // a panic of the implementation is an outcome, not a harness crash
-					b.WriteString(" W 1 -1 -1")
-					c.Find(Finding{Kind: "oracle", Class: "buffered-conn-panic", Case: fmt.Sprintf("c13 bconnops %d %s", k.rate, strings.Trim(fmt.Sprint(k.ops), "[]")), Impl: fmt.Sprint("panic: ", r), Spec: "Write/Flush never panic"})
-				}
-			}()
+		caseLine := fmt.Sprintf("c13 bconnops %d %s", k.rate, strings.Trim(fmt.Sprint(k.ops), "[]"))
+		returned, pnc := sl.Guard(sl.Watchdog, func() {
 			for _, op := range k.ops {
 				if op == 0 {
 					bcn.Flush()
@@ -796,7 +1157,18 @@ func runBConn(c *Ctx) {
 				bcn.Write(p)
 				fmt.Fprintf(&b, " W %d %d %d", op, rc.buf.Len(), bcn.Buffered())
 			}
-		}()
+		})
+		if !returned {
+			// Write / Flush does not come back: reported with the case; the run of this part ends here
+			// (the goroutine cannot be stopped)
+			c.Find(Finding{Kind: "oracle", Class: "buffered-conn-hang", Case: caseLine, Impl: "Write/Flush did not return within " + sl.Watchdog.String(), Spec: "Write/Flush return"})
+			cases = cases[:len(obs)]
+			break
+		}
+		if pnc != nil { // a panic of the implementation is an outcome, not a harness crash
+			b.WriteString(" W 1 -1 -1")
+			c.Find(Finding{Kind: "oracle", Class: "buffered-conn-panic", Case: caseLine, Impl: fmt.Sprint("panic: ", pnc), Spec: "Write/Flush never panic"})
+		}
 		lines = append(lines, b.String())
 		obs = append(obs, obsT{append([]byte(nil), rc.buf.Bytes()...), all})
 	}
@@ -870,7 +1242,12 @@ func runPW(c *Ctx) {
 		}
 		data := r.Bytes(size)
 		rec := &chunkRec{}
-		err := (&rtp.Packet{Channel: byte(k), Data: data}).Write(rec, cfgs)
+		var err error
+		returned, pnc := sl.Guard(sl.Watchdog, func() { err = (&rtp.Packet{Channel: byte(k), Data: data}).Write(rec, cfgs) })
+		if !returned || pnc != nil {
+			c.Find(Finding{Kind: "oracle", Class: "packet-write-hang-or-panic", Case: fmt.Sprintf("c13 pw %d %s", cfgs[k], trunc(Hx(data), 200)), Impl: fmt.Sprint("returned=", returned, " panic=", pnc), Spec: "Packet.Write returns"})
+			break
+		}
 		var hs []string
 		for _, ch := range rec.chunks {
 			hs = append(hs, Hx(ch))
